@@ -70,6 +70,12 @@ func Alphabet(corner bool) []Sym {
 		}
 		add("keys", fmt.Sprintf("remove-keys/%v", s), `{"action":"remove-public-keys","ids":[`+js+`]}`)
 	}
+	// keys and services have separate id spaces: a service named like a key, a key named like a service
+	add("services", "add-service/k1/v0", `{"action":"add-services","services":`+arr(svc("k1", 0))+`}`)
+	add("keys", "add-key/s1/v0", `{"action":"add-public-keys","publicKeys":`+arr(key("s1", 0))+`}`)
+	// a key whose JWK carries further members, among them ones that RFC 7518 uses for private key material: the patch value is the
+	// caller's whatever it holds
+	add("keys", "add-key/k2/jwk-with-further-members", `{"action":"add-public-keys","publicKeys":[{"id":"k2","type":"JsonWebKey2020","purposes":["authentication"],"publicKeyJwk":{"kty":"EC","crv":"P-256","x":"`+keys.New("P-256", 33).JWK().X+`","y":"`+keys.New("P-256", 33).JWK().Y+`","d":"870MB6gfuTJ4HtUnUvYMyJpr5eUZNP4Bk43bVdj3eAE","k":"c2VjcmV0","kid":"k2","key_ops":["verify"]}}]}`)
 	sids := []string{"s1", "s2", "s3"}
 	for _, id := range sids {
 		for v := 0; v < 2; v++ {
